@@ -1,5 +1,5 @@
 (* C17 — Format migration and mixed-version logs preserve every message. *)
-From KV Require Import Base Model Spec LogInv DeleteProofs OpenProofs History.
+From KV Require Import Base Model Spec LogInv DeleteProofs OpenProofs History Versions.
 
 (* Migrate on a closed directory: every message and NextOffset are preserved, the directory stays
    well-formed, and afterwards every segment is in the requested version *)
@@ -52,3 +52,28 @@ Theorem C17_history :
              abs (fst (hrun H st ops)) = spec_run (abs st) ops (snd (hrun H st ops)).
 Proof. exact history_refines. Qed.
 Print Assumptions C17_history.
+
+(* which version every segment has after a Delete: an untouched segment keeps its own; the new empty head a Delete
+   creates is in NewSegmentsVersion; the rewritten segment is in NewSegmentsVersion or, with KeepRewriteVersion, in
+   the version of the segment it was rewritten from *)
+Theorem C17_versions_after_delete :
+  forall (H : bytes -> Z) st offs st' deleted size c,
+  Inv st -> opened st = Some c ->
+  log_delete H st offs = Ok (st', (deleted, size)) ->
+  forall s', In s' (segs st') ->
+    In s' (segs st) \/ sver s' = cnewver c \/
+    (ckeeprw c = true /\ exists src, In src (segs st) /\ sver s' = sver src).
+Proof. exact Versions.delete_versions. Qed.
+Print Assumptions C17_versions_after_delete.
+
+(* ... and after a Publish: the writing segment is the old one, or - after a rollover - a new one in
+   NewSegmentsVersion; every other segment is untouched *)
+Theorem C17_versions_after_publish :
+  forall (H : bytes -> Z) st ms st' n c hd,
+  opened st = Some c -> last_opt (segs st) = Some hd ->
+  log_publish H st ms = Ok (st', n) ->
+  exists pre hd', segs st' = pre ++ [hd'] /\
+    sver hd' = (if needs_rollover c hd then cnewver c else sver hd) /\
+    (forall s, In s pre -> In s (segs st)).
+Proof. exact Versions.publish_versions. Qed.
+Print Assumptions C17_versions_after_publish.
